@@ -54,8 +54,96 @@ def three_filters(rep, n_cases):
     return bad
 
 
+class MyIndexError(IndexError):
+    pass
+
+
+def lookup_error_cases(rep, n_cases):
+    """user functions that raise LOOKUP errors (IndexError, KeyError and subclasses) below n-ary and index-driven
+    stages: these are the exceptions the library itself uses for its own bookkeeping, and a stage must not
+    mistake one that comes out of an example for its own. Batches are left out (BatchDataset deliberately
+    reads IndexError as the end of its input: hypothesis EnvOK of the theorems)."""
+    rng = random.Random(rep.seed * 3 + 141)
+    classes = {'IndexError': IndexError, 'MyIndexError': MyIndexError, 'KeyError': KeyError, 'ValueError': ValueError}
+    bad = []
+    for _ in range(n_cases):
+        parts = []
+        for pid in range(rng.randint(1, 3)):
+            n = rng.randint(1, 4)
+            fail = {j: rng.choice(list(classes)) for j in range(n) if rng.random() < 0.35}
+            parts.append((pid, n, fail))
+        shape = rng.choice(['concat', 'concat_fn', 'intersperse', 'tile', 'concat_reversed', 'concat_map', 'concat_cache'])
+        E = rng.choice([(IndexError,), (KeyError,), (LookupError,), (Exception,), (ValueError,), (MyIndexError,), (KeyError, IndexError)])
+
+        def build(raising):
+            dss = []
+            for pid, n, fail in parts:
+                def f(x, pid=pid, fail=fail):
+                    if raising and x in fail:
+                        raise classes[fail[x]](x)
+                    return (pid, x)
+                dss.append(lazy_dataset.new({f'p{pid}k{j}': j for j in range(n)}).map(f))
+            if shape == 'intersperse' and len(dss) > 1:
+                ds = dss[0].intersperse(*dss[1:])
+            elif shape == 'concat_fn':
+                ds = lazy_dataset.concatenate(*dss)
+            elif shape == 'tile':
+                ds = dss[0].tile(2)
+            else:
+                ds = dss[0].concatenate(*dss[1:]) if len(dss) > 1 else dss[0]
+            if shape == 'concat_reversed':
+                ds = ds[::-1]
+            elif shape == 'concat_map':
+                ds = ds.map(lambda t: t)
+            elif shape == 'concat_cache':
+                ds = ds.cache()
+            return ds
+        with warnings.catch_warnings():
+            warnings.simplefilter('ignore')
+            order = list(build(False))                       # which source example sits where (nothing raises)
+            fails = {pid: fail for pid, _, fail in parts}
+            want_vals, want_err = [], None
+            for pid, x in order:
+                if x in fails[pid]:
+                    c = classes[fails[pid][x]]
+                    if issubclass(c, E):
+                        continue
+                    want_err = c.__name__
+                    break
+                want_vals.append((pid, x))
+            got = {}
+            for view in (('values', 'prefetch2', 'prefetch1') if shape == 'tile' else ('values', 'items', 'prefetch2', 'prefetch1')):   # (tile repeats keys: no items())
+                vals, err = [], None
+                try:
+                    ds = build(True)
+                    if view == 'values':
+                        it = ds.catch(E)
+                    elif view == 'items':
+                        it = (kv[1] for kv in ds.catch(E).items())
+                    elif view == 'prefetch2':
+                        it = ds.prefetch(2, 3, catch_filter_exception=E)
+                    else:
+                        it = ds.prefetch(1, 2, catch_filter_exception=E)
+                    for v in it:
+                        vals.append(v)
+                except Exception as e:  # noqa
+                    err = type(e).__name__
+                got[view] = {'vals': vals, 'err': err}
+            want = {'vals': want_vals, 'err': want_err}
+            wrong = {k: g for k, g in got.items() if g != want}
+            if wrong:
+                bad.append({'shape': shape, 'parts': [(pid, n, fail) for pid, n, fail in parts], 'caught': [c.__name__ for c in E],
+                            'want': want, 'got': wrong})
+    return bad
+
+
 def run(rep):
     piperun.run(P(), rep)
+    nl = 150 if rep.tier == 'quick' else 3000
+    bad_l = lookup_error_cases(rep, nl)
+    rep.coverage['lookup_error_cases'] = nl
+    if bad_l:
+        rep.violation({'property': 'C14', 'kind': 'oracle-failure', 'clause': 'lookup_error_from_an_example', 'case': bad_l[0]})
     n = 150 if rep.tier == 'quick' else 3000
     bad = three_filters(rep, n)
     rep.coverage['three_filters_cases'] = n
@@ -65,7 +153,7 @@ def run(rep):
 
 
 def replay(j):
-    if j.get('clause') == 'three_filters_agree':
+    if j.get('clause') in ('three_filters_agree', 'lookup_error_from_an_example'):
         print(j)
         return 1
     return piperun.replay(P(), j)
